@@ -4,7 +4,7 @@ open Queue
 
 /-! Acceptor for `Queue.step`.  `reset p1 p2 …` starts a new trace; thread k (k ≥ 1) belongs to
 process p_k, thread 0 is the worker.  `<tid> <label…>` must be an enabled transition.
-`sink` prints the sink content as `t:m,t:m,…`. -/
+`sink` prints the sink content as `t:m,t:m,…`, `handled` the worker's log `t:m:w|r|u,…`. -/
 
 def parseItem : List String → Option Item
   | ["msg", t, m] => match t.toNat?, m.toNat? with
@@ -24,6 +24,10 @@ def parseLab : List String → Option Lab
   | ["wStopped"] => some .wStopped
   | "put" :: rest => (parseItem rest).map .put
   | "get" :: rest => (parseItem rest).map .get
+  | "getFail" :: rest => (parseItem rest).map .getFail
+  | ["getRaise"] => some .getRaise
+  | ["writeFail"] => some .writeFail
+  | ["putFail"] => some .putFail
   | ["join"] => some .join
   | ["sinkStop"] => some .sinkStop
   | ["acqConf"] => some .acqConf
@@ -53,6 +57,10 @@ def main : IO Unit := do
         stdout.putStrLn "ok"
       | ["sink"] =>
         stdout.putStrLn ("sink " ++ ",".intercalate (s.sink.map (fun e => s!"{e.1}:{e.2}")))
+      | ["handled"] =>
+        let o : Outcome → String := fun o => match o with
+          | .written => "w" | .refused => "r" | .unreadable => "u"
+        stdout.putStrLn ("handled " ++ ",".intercalate (s.handled.map (fun e => s!"{e.1.1}:{e.1.2}:{o e.2}")))
       | t :: rest =>
         match t.toNat?, parseLab rest with
         | some t, some lab =>
